@@ -27,6 +27,9 @@ IDENTITYLESS = {"numpy.amax", "numpy.amin", "numpy.mean", "numpy.median", "numpy
 
 def check(ctx):
     repo = ctx.repo
+    from . import generic
+    generic.lossy_calls(ctx, generic.module_functions(repo, "dataiter.aggregate"),
+                        "the statistic is computed over the non-missing values themselves")
     for r, t in (("SIB-7", "vector form == group form == spec table (threshold, default, statistic, NA wiring)"),
                  ("GRD-kernel", "identity-less statistics are bound with nrequired >= 1"),
                  ("MPT-3", "group-aware protocol: default set on every path, group_aware marked"),
